@@ -152,7 +152,7 @@ func genInCall(root *pkgSrc) {
 			}
 			return true
 		})
-		idIsMsCounter = fmtOK && incOK && stmts == 2
+		idIsMsCounter = fmtOK && incOK && stmts == 2 && len(fd.Body.List) == 3
 	}
 	writers := 0 // 0 = not recognised
 	switch {
